@@ -2113,6 +2113,8 @@ class C13(Prop):
         chunks = [lines[i::n] for i in range(n)]
         thread_cmds = ['WRAPPERS'] + ['THREADS %d %d' % (t, 40 if tier == 'quick' else 400) for t in (2, 4, 8)]
         chunks.append(thread_cmds)
+        # long histories through one value (thousands of parses): state that is never reset at a parse boundary
+        chunks.append(['LONG %d' % (3000 if tier == 'quick' else 100000)])
         with multiprocessing.Pool(jobs) as pool:
             results = pool.map(_hist_worker, [(c, seed) for c in chunks if c])
         tot = {'pairs': 0, 'corr_disagree': 0, 'pred_fail': 0, 'outcomes': {}, 'impl_s': 0.0, 'model_s': 0.0, 'crash': None,
@@ -2133,7 +2135,7 @@ class C13(Prop):
                 steps, diffs = int(kv['steps']), int(kv['diffs'])
                 tot['pairs'] += steps
                 tot['nontrivial'] += steps * 2 // 3
-                key = 'threads' if cid.startswith('T') else 'wrappers' if cid.startswith('W-') else 'history'
+                key = 'threads' if cid.startswith('T') else 'wrappers' if cid.startswith('W-') else 'long-history' if cid.startswith('L-') else 'history'
                 tot['outcomes'][key] = tot['outcomes'].get(key, 0) + steps
                 if diffs:
                     tot['pred_fail'] += diffs
